@@ -351,7 +351,7 @@ def cross_solver_oracle(rep, tier, seed):
     g = Gen(seed + 1414)
     r = g.rng
     stats = collections.Counter()
-    N = 300 if tier == "thorough" else 60
+    N = 600 if tier == "thorough" else 180
 
     def run_one(case, kind, nk, conds):
         spec, problem, params = build(case, newton_type=NewtonType[NKINDS[nk]], step_solver_type=StepSolverType[KINDS[kind]])
@@ -378,12 +378,21 @@ def cross_solver_oracle(rep, tier, seed):
     def differ(a, b):
         return not np.allclose(a, b, rtol=1e-7, atol=1e-7 * (1.0 + float(np.max(np.abs(a))) if len(a) else 1.0))
 
-    for k in range(N):
-        spec, trans, sc, xh, yh, x, y, dt, rho = gen_base(g, nmax=3, mmax=2)
-        if r.random() < 0.4:
-            dt, rho = dt * 4.0, rho * 4.0
-        case = {"spec": spec.to_json(), "sc": sc, "trans": trans, "xh": xh, "yh": yh, "dt": dt, "rho": rho,
-                "tau": r.choice([None, None, 0.5, 1.0]), "fmt": r.choice(["coo", "csr", "csc"])}
+    import json as _json
+    import os as _os
+    from .. import common as _common
+    cpath = _os.path.join(_common.VERIF, "corpus", "cross_solver.json")
+    corpus = _json.load(open(cpath)) if _os.path.exists(cpath) else []
+    for k in range(len(corpus) + N):
+        if k < len(corpus):
+            case = {kk: vv for kk, vv in corpus[k].items() if kk != "note"}
+        else:
+            spec, trans, sc, xh, yh, x, y, dt, rho = gen_base(g, nmax=3, mmax=2)
+            if r.random() < 0.6:
+                f_ = r.choice([4.0, 16.0, 64.0])     # long steps: the active set changes from one Newton iterate to the next
+                dt, rho = dt * f_, rho * f_
+            case = {"spec": spec.to_json(), "sc": sc, "trans": trans, "xh": xh, "yh": yh, "dt": dt, "rho": rho,
+                    "tau": r.choice([None, None, 0.5, 1.0]), "fmt": r.choice(["coo", "csr", "csc"])}
         runs, conds = {}, []
         try:
             for nk in range(3):
